@@ -176,7 +176,9 @@ func genCase(r *vh.Rand) string {
 	}
 	// what the target answers (the property speaks of the request; the answer must not matter, incl. for connection reuse)
 	resp := fmt.Sprintf("%d:%d", r.PickInt([]int{200, 200, 200, 204, 301, 404, 500}), r.PickInt([]int{0, 2, 2, 1000, 70000, 300000, 1200000}))
-	line := fmt.Sprintf("wire %s %s %s %d %s %s %s %d", format, vh.B(ssl), vh.B(ka), inst, tgt, vh.B(r.Chance(1, 3)), resp, len(cfg))
+	pools := r.PickInt([]int{1, 1, 1, 2, 3})
+	late := r.Chance(1, 3)
+	line := fmt.Sprintf("wire %s %s %s %d %s %s %s %d %s %d", format, vh.B(ssl), vh.B(ka), inst, tgt, vh.B(r.Chance(1, 3)), resp, pools, vh.B(late), len(cfg))
 	if len(cfg) > 0 {
 		line += " " + strings.Join(cfg, " ")
 	}
